@@ -281,7 +281,7 @@ def run(ctx):
         f = ctx.fn("R8", path)
         if f is None:
             continue
-        il = f.locals_named("i")
+        il = C.scan_index(f)
         if not il:
             ctx.missing("R8", "scan index of %s" % path)
             continue
